@@ -106,7 +106,7 @@ fn wrapper_history(ctx: &Ctx, t: &mut Tape<'_>, r: &mut Report) -> CheckResult {
         Reach::SetBlockPos
     };
     let mut hist = vec![format!("start=(2^{w}-1-{k}, {off}) via {reach:?}")];
-    let mut obj = position_stream(f, &model, &key, &iv, start, bs, reach, "C11")?;
+    let mut obj = position_stream(f, &model, &key, &iv, start, bs, reach, Ctor::New, "C11")?;
     let mut q = start;
     let nops = 1 + t.idx(6);
     let (mut refused, mut exact_or_later_ok) = (0, false);
